@@ -34,6 +34,22 @@ def codec_fields(f, self_ty):
     return None
 
 
+def decoder_roles(f, self_ty):
+    """Fields of the codec by type/role: (state field, counter field, accumulator field, state enum, its path)."""
+    adt = codec_fields(f, self_ty)
+    if not adt:
+        return None
+    fields = adt["variants"][0]["fields"]
+    state_f = [x for x in fields if any(k.endswith("::" + x["ty"].split("::")[-1]) and f.adts[k]["kind"] == "Enum" for k in f.adts)]
+    cnt_f = [x for x in fields if x["ty"] == "usize"]
+    acc_f = [x for x in fields if "ZmqMessage" in x["ty"]]
+    if not (state_f and cnt_f and acc_f):
+        return None
+    sp = [k for k in f.adts if k.endswith("::" + state_f[0]["ty"].split("::")[-1])][0]
+    return {"state": state_f[0]["name"], "counter": cnt_f[0]["name"], "acc": acc_f[0]["name"], "enum": f.adts[sp], "enum_path": sp,
+            "fields": [x["name"] for x in fields]}
+
+
 def analyse_decoder(f, rep, dec, self_ty):
     adt = codec_fields(f, self_ty)
     if not adt:
